@@ -33,7 +33,8 @@ Inductive action :=
 | AEvStreamError
 | ADisconnectCall           (* c.Disconnect() -> transport.Close() *)
 | ARecvStreamClose          (* transport.ReceivedStreamClose() *)
-| AQuit.                    (* the client closes keepaliveQuit: before it reports the loss (the Disconnected handler of a
+| AQuit.                    (* the client's keepaliveQuit is closed BY NOW AT THE LATEST (after a stream error it has been
+                               closed already when that error was reported): before it reports the loss (the Disconnected handler of a
                                StreamManager only returns once a new session is up); the component: loop returned *)
 
 (* Client.recv.  inb: SMState.Inbound; nw: number of transport writes made so far
@@ -45,8 +46,9 @@ Fixpoint crecv (inb : N) (nw : nat) (wfail : option nat) (items : list item) : l
       match i with
       | IBad => [AQuit; AErrCall; AEvDisconnected inb]
       | IStreamError _ =>
-          ARouteSync i :: AEvStreamError :: AErrCall :: ADisconnectCall :: ARouteAsync i
-            :: crecv inb nw wfail rest
+          (* routed once, synchronously; then the stream-error event, the error callback and Disconnect;
+             the loop goes on reading until the connection is gone *)
+          ARouteSync i :: AEvStreamError :: AErrCall :: ADisconnectCall :: crecv inb nw wfail rest
       | ISmR =>
           if match wfail with Some k => Nat.eqb k (S nw) | None => false end
           then [AWriteFail inb; AQuit; AErrCall; AEvDisconnected inb]
@@ -66,7 +68,7 @@ Fixpoint precv (items : list item) : list action :=
       match i with
       | IBad => [AEvDisconnected 0; AErrCall; AQuit]
       | IStreamError _ =>
-          ARouteSync i :: AEvStreamError :: AErrCall :: ADisconnectCall :: ARouteSync i :: precv rest
+          ARouteSync i :: AEvStreamError :: AErrCall :: ADisconnectCall :: precv rest
       | IClose => [ARecvStreamClose; AQuit]
       | _ => ARouteSync i :: precv rest
       end
